@@ -273,6 +273,14 @@ def inject(text, kind, k):
         return text + '\n#zz_a: /"q"/#zz_a\n'
     if kind == 'cyclic-signing':
         return text + '\n#zz_a: /"q"/"a" <= #zz_b\n#zz_b: /"q"/"b" <= #zz_a\n'
+    if kind == 'cyclic-signing-shared-key':
+        # the key that closes the cycle already signs another rule
+        return text + '\n#zz_a: /"q"/"a" <= #zz_k\n#zz_b: /"q"/"b" <= #zz_k\n#zz_k: /"q"/"k" <= #zz_b\n'
+    if kind == 'cyclic-signing-through-rule':
+        # a cycle through rule k of the schema: one more definition of it, signed by a new rule that it signs
+        if r.name[1] == '_':
+            return None
+        return text + '\n%s: /"q"/"zz" <= #zz_a\n#zz_a: /"q"/"a" <= %s\n' % (r.name, r.name)
     if kind == 'self-signing':
         return text + '\n#zz_a: /"q"/"a" <= #zz_a\n'
     if kind == 'undefined-signer':
@@ -291,6 +299,7 @@ def inject(text, kind, k):
 
 
 KINDS = ['undefined-rule', 'temporary-rule-ref', 'cyclic-reference', 'self-reference', 'cyclic-signing', 'self-signing',
+         'cyclic-signing-shared-key',
          'undefined-signer', 'unknown-pattern-constrained', 'unknown-pattern-option', 'unknown-pattern-fn-arg',
          'temporary-pattern-option', 'temporary-pattern-fn-arg']
 
@@ -304,6 +313,9 @@ def h_text(eng, case):
         bad = text
     else:
         bad = inject(text, kind, case.get('k', 0))
+        if bad is None:
+            eng.reach('injection-not-applicable')
+            return
     err = None
     try:
         model = compile_lvs(bad)
@@ -352,4 +364,6 @@ def cases(tier, seed):
         cs.append(('text', {'text': text, 'kind': 'none', 'schema': key}))
         for kind in KINDS:
             cs.append(('text', {'text': text, 'kind': kind, 'schema': key}))
+        for k in range(len(lvsref.parse(text))):
+            cs.append(('text', {'text': text, 'kind': 'cyclic-signing-through-rule', 'schema': key, 'k': k}))
     return cs
